@@ -56,7 +56,8 @@ pub fn run(tier: Tier, seed: u64) -> i32 {
          and permutation polynomials from the snapshot of the same prove call, and searches the draws for the \
          unique disjoint assignment that explains every masked evaluation and commitment; for n <= 64 the naive \
          prover rebuilds the quotient shares and the whole proof; non-trivial = all 14 draws distinct and \
-         non-zero and the circuit has >= 1 custom or public-input row; distinct = fingerprint of (circuit, script)",
+         non-zero and the circuit has >= 1 custom or public-input row (a separate bucket scripts zero draws at \
+         every position and checks the randomness accounting only); distinct = fingerprint of (circuit, script)",
     );
     ev.assume("the scripted RNG returns draw k as the k-th 64-byte fill; BlsScalar::random reduces the 64 bytes wide");
     let n_cases = tier.pick(48u64, 1200u64);
@@ -78,6 +79,46 @@ pub fn run(tier: Tier, seed: u64) -> i32 {
                 return;
             }
         };
+        // ---- zero draws: accounting only (a zero draw is a degenerate blinder for
+        // the mask equations, but it must still be consumed exactly once) -----------
+        {
+            let hc0 = HC::new(prog.clone(), inputs.clone());
+            for pos in [(ci % 14) as usize, ((ci * 5 + 11) % 14) as usize, 13 - (ci % 3) as usize] {
+                let mut z = script(&mut rng, 2);
+                z[pos] = BlsScalar::zero();
+                if ci % 4 == 0 {
+                    z[(pos + 1) % 14] = BlsScalar::zero();
+                }
+                let mut zr = ScriptedRng::new(&z);
+                let zlog = zr.log();
+                let r0 = guard(|| compiled.prover.prove(&mut zr, &hc0));
+                let l = zlog.lock().unwrap();
+                ev.bucket("zero_draw_scripts");
+                ev.set_insert("zero_draw_positions", pos);
+                let ok = l.calls.len() == 14 && l.calls.iter().all(|c| *c == RngCall::Fill(64)) && !l.overrun;
+                if !ok {
+                    ev.violation(
+                        &format!("C06:randomness-accounting:zero-draw:{}-calls", l.calls.len()),
+                        json!({"rows": rows, "zero_at": pos, "calls": l.calls.len(), "overrun": l.overrun}),
+                    );
+                }
+                match r0 {
+                    Ok(Ok((p0, pi0))) => {
+                        // still a valid proof, and a pure function of the 14 draws
+                        if common::verify(&compiled.verifier, &p0, &pi0, PlonkVersion::V3).is_err() {
+                            ev.violation("C06:proof-with-zero-draw-rejected", json!({"rows": rows, "zero_at": pos}));
+                        }
+                        let again = guard(|| compiled.prover.prove(&mut ScriptedRng::new(&z), &hc0));
+                        if let Ok(Ok((p1, _))) = again {
+                            if p1.to_bytes() != p0.to_bytes() {
+                                ev.violation("C06:proof-not-a-function-of-the-14-draws", json!({"rows": rows, "zero_at": pos}));
+                            }
+                        }
+                    }
+                    other => ev.violation("C06:prove-failed-with-zero-draw", json!({"rows": rows, "zero_at": pos, "got": format!("{:?}", other.map(|r| r.map(|_| ())))})),
+                }
+            }
+        }
         let sc = script(&mut rng, ci / 12);
         let hc = HC::new(prog.clone(), inputs.clone());
         let mut srng = ScriptedRng::new(&sc);
@@ -317,6 +358,8 @@ pub fn run(tier: Tier, seed: u64) -> i32 {
     ev.floor("commitment mask checks", ev.bucket_get("step2b"), tier.pick(80, 2000));
     ev.floor("proofs rebuilt byte for byte by the naive prover", ev.bucket_get("step3.byte_equal"), tier.pick(10, 200));
     ev.floor("freshness pairs", ev.bucket_get("step4"), tier.pick(30, 1000));
+    ev.floor("scripts with zero draws", ev.bucket_get("zero_draw_scripts"), tier.pick(100, 3000));
+    ev.floor("zero-draw positions", ev.set_len("zero_draw_positions") as u64, 14);
     ev.floor("gate families", ev.set_len("families") as u64, 6);
     ev.finish()
 }
